@@ -21,6 +21,24 @@
 //   here (C01/C02/C07); they are counted.  A polarised cell that does not sit in
 //   a free row segment is skipped and counted.
 //
+// Part 3 (object histories, harness/common/history.hpp; oracle.txt + a correspondence case per observation): ONE Circuit
+//   object goes through a random sequence of public mutators (setRows, setupRows with all flag combinations,
+//   setCellX/Y/Width/Height, setCellIsFixed, setCellIsObstruction, setCellOrientation, setCellRowPolarity, setSolution,
+//   addNet; kept inside the C01 domain) interleaved with the observed calls Circuit::legalize and Circuit::placeDetailed
+//   (both with a callback): several observations per object, the same one twice, observation -> one mutator -> same
+//   observation.  After every observation
+//     (a) the orientation oracle of part 2 is evaluated against rows() / the fixed obstructions as they are NOW (at every
+//         Detailed callback and after the call returns);
+//     (b) the same call is made on a freshly constructed Circuit rebuilt from the getters through the public setters
+//         (a copy would carry hidden members): outcome (return / exception class), final solution, the solution at every
+//         callback and the rest of the observable state must be identical; the twin runs first, and a history object
+//         that dies (assert / sanitizer) in a call its twin completed is reported as well;
+//     (c) for every movable cell that sits in a free row segment the line `assign <polarity> <row orientation now>
+//         <orientation before the call>` goes to the Lean driver, whose answer (OrientRule.assignedOrientation, the model
+//         of LegalizerBase::getOrientation / DetailedPlacement::place) must be the orientation the cell has now.
+//   The whole history runs in one forked child.  A failure's input is the history up to the failing observation
+//   ("history / circuit..end / mut ... / obs legalize|placeDetailed <params fields> / endhistory"); --replay accepts it.
+//
 // Input string of a case (also the corpus / replay format): the text of
 // vc::dumpCircuit followed by one line
 //   params <effort> <nbPasses> <lsNbNeighbours> <lsNbRows> <shiftNbRows> <shiftMaxNbCells>
@@ -31,6 +49,7 @@
 #include <thread>
 
 #include "common/circuit.hpp"
+#include "common/history.hpp"
 #include "place_detailed/legalizer.hpp"
 
 using namespace coloquinte;
@@ -437,6 +456,188 @@ static void childRun(Case cs, std::ostream &os) {
   if ((int)ck.fails.size() > listed) emit("stat further_failures_not_listed " + std::to_string(ck.fails.size() - listed));
 }
 
+// ------------------------------------------------------------ part 3: object histories
+
+// the fields of paramsLine after the keyword
+static bool parseParamFields(std::istream &is, ColoquinteParameters &params, int &effort) {
+  int eff, v[7], cm;
+  long long m[3];
+  int e[3];
+  if (!(is >> eff)) return false;
+  for (int &t : v) is >> t;
+  is >> cm;
+  for (int i = 0; i < 3; ++i) is >> m[i] >> e[i];
+  if (!is || eff < 1 || eff > 9) return false;
+  ColoquinteParameters p(eff);
+  p.detailed.nbPasses = v[0]; p.detailed.localSearchNbNeighbours = v[1]; p.detailed.localSearchNbRows = v[2];
+  p.detailed.shiftNbRows = v[3]; p.detailed.shiftMaxNbCells = v[4]; p.detailed.reorderingNbRows = v[5];
+  p.detailed.reorderingMaxNbCells = v[6];
+  p.legalization.costModel = (LegalizationModel)cm;
+  p.legalization.orderingWidth = std::ldexp((double)m[0], e[0]);
+  p.legalization.orderingHeight = std::ldexp((double)m[1], e[1]);
+  p.legalization.orderingY = std::ldexp((double)m[2], e[2]);
+  params = p;
+  effort = eff;
+  return true;
+}
+
+struct OpOutcome {
+  std::string status;          // "ok" or the exception class
+  std::vector<uint64_t> cb;    // hash of the solution at every Detailed callback
+};
+
+// Runs in the forked child: the whole history on one object.
+static void childHistory(const vhist::State &init, vhist::StepSource src, std::ostream &os) {
+  auto emit = [&](const std::string &line, bool salvage = true) {
+    os << line << "\n";
+    if (!salvage) return;
+    std::string e = "C04|" + line + "\n";
+    ssize_t r = write(2, e.data(), e.size());
+    (void)r;
+  };
+  emit("hist history");
+  for (auto &l : vhist::splitLines(vhist::stateText(init))) emit("hist " + l);
+  Circuit obj = vhist::rebuild(init);
+  vhist::Tracker tr;
+  vhist::Step st;
+  int j = 0;
+  long long checked = 0, skipped = 0;
+  while (src(obj, st)) {
+    emit("hist " + st.text());
+    if (st.isMut) {
+      try {
+        st.mut.apply(obj);
+        tr.mut(st.mut.name());
+        emit("stat hist_mutators_applied");
+      } catch (const std::exception &e) {
+        emit(std::string("stat hist_mutator_threw_") + vhist::mkName(st.mut.kind));
+      }
+      continue;
+    }
+    std::istringstream is(st.obs);
+    std::string kw, kind;
+    is >> kw >> kind;
+    ColoquinteParameters params(3);
+    int effort = 3;
+    if ((kind != "legalize" && kind != "placeDetailed") || !parseParamFields(is, params, effort)) { emit("stat hist_obs_unparsed"); continue; }
+    int oj = j++;
+    emit("obs_begin " + std::to_string(oj));
+    for (auto &k : tr.obs(st.obs)) emit("stat " + k);
+    emit("stat hist_obs_" + kind);
+    vhist::State s0 = vhist::snapshot(obj);
+    const std::vector<CellOrientation> before = s0.orient;
+    bool anyPolarised = false;
+    for (int i = 0; i < obj.nbCells(); ++i)
+      if (!obj.isFixed(i) && obj.cellRowPolarity()[i] != CellRowPolarity::ANY) anyPolarised = true;
+    auto runOp = [&](Circuit &c, const std::function<void(int)> &onCb) {
+      OpOutcome o;
+      int n = 0;
+      auto cb = [&](PlacementStep stp) {
+        if (stp != PlacementStep::Detailed) return;
+        ++n;
+        o.cb.push_back(vh::hashStr(vc::solutionString(c)));
+        if (onCb) onCb(n);
+      };
+      try {
+        if (kind == "legalize") c.legalize(params, cb);
+        else c.placeDetailed(params, cb);
+        o.status = "ok";
+      } catch (const std::exception &e) {
+        o.status = vc::exClass(e);
+      }
+      return o;
+    };
+    // (b) the fresh twin first
+    Circuit twin = vhist::rebuild(s0);
+    OpOutcome to = runOp(twin, nullptr);
+    emit("twin_done " + std::to_string(oj));
+    // the history object, with the orientation oracle at every callback
+    Check ck;
+    OpOutcome oo = runOp(obj, [&](int n) { checkOrientations(obj, before, "Detailed callback #" + std::to_string(n) + " of " + kind, ck); });
+    emit("obj_done " + std::to_string(oj));
+    emit("stat hist_" + kind + "_" + oo.status);
+    std::string what;
+    // (a) direct oracle against the public state as it is now
+    if (oo.status == "ok") {
+      checkOrientations(obj, before, "after " + kind, ck);
+      if (anyPolarised) emit("nontrivial");
+    }
+    if (!ck.fails.empty()) {
+      what = ck.fails[0];
+      if (ck.fails.size() > 1) what += " (+" + std::to_string(ck.fails.size() - 1) + " more)";
+      emit("stat hist_fail_orientation_oracle");
+    }
+    checked += ck.checkedPolarised;
+    skipped += ck.skippedNoSegment;
+    // (b) metamorphic comparison
+    std::string diff;
+    if (oo.status != to.status) diff = "the call on the object ends with [" + oo.status + "] but on the fresh circuit with [" + to.status + "]";
+    else if (vc::solutionString(obj) != vc::solutionString(twin))
+      diff = "the object ends at [" + vc::solutionString(obj) + "] but the fresh circuit at [" + vc::solutionString(twin) + "]";
+    else if (vc::circuitString(obj) != vc::circuitString(twin)) diff = "the observable states differ after the call";
+    else if (oo.cb != to.cb) diff = "the solutions seen at the Detailed callbacks differ (" + std::to_string(oo.cb.size()) + " vs " + std::to_string(to.cb.size()) + " callbacks)";
+    if (!diff.empty()) {
+      emit("stat hist_fail_fresh_twin_differs");
+      if (what.empty()) what = "object history: " + kind + " on the history object and on a freshly constructed circuit with the same observable state differ: " + diff;
+    }
+    if (!what.empty()) emit("fail " + what);
+    emit("stat hist_detailed_callbacks " + std::to_string(oo.cb.size()));
+    // (c) model correspondence: the orientation of every movable cell that sits in a free row segment
+    if (oo.status == "ok") {
+      emit("corrcase " + std::to_string(oj), false);
+      for (int i = 0; i < obj.nbCells(); ++i) {
+        if (obj.isFixed(i)) continue;
+        SegRef sg = segmentUnder(obj, i);
+        if (!sg.found) continue;
+        emit("corr assign " + std::to_string((int)obj.cellRowPolarity()[i]) + " " + std::to_string((int)sg.orient) + " " + std::to_string((int)before[i]) +
+                 "|assign " + std::to_string((int)obj.cellOrientation()[i]), false);
+      }
+    }
+  }
+  emit("stat hist_polarised_checks " + std::to_string(checked));
+  if (skipped) emit("stat hist_polarised_skipped_no_segment " + std::to_string(skipped));
+}
+
+static std::string paramFields(const ColoquinteParameters &p, int effort) { return paramsLine(p, effort).substr(7); }
+
+// The random history k of the run (deterministic in (seed, k)): initial circuit and step source.
+static void makeHistory(uint64_t seed, long long k, vhist::State &init, vhist::StepSource &src) {
+  vh::Rng g = vh::Rng::forCase(seed, 5000000000ll + k);
+  vc::GenOpts o;
+  o.turned = false;
+  if (k % 5 == 4) { o.multiRow = false; o.maxRows = 8; o.maxCells = 24; }
+  o.maxUtil = 0.8;
+  init = vhist::snapshot(vc::genCircuit(g, o));
+  vhist::MutProfile prof;
+  prof.domain = true;
+  prof.maxWidth = 5;
+  prof.kinds = vhist::allKinds();
+  for (vhist::MK extra : {vhist::MK::SetupRows, vhist::MK::SetupRows, vhist::MK::SetRows, vhist::MK::SetCellRowPolarity}) prof.kinds.push_back(extra);
+  auto fields = std::make_shared<std::string>();
+  auto genObs = [fields](vh::Rng &gg, const Circuit &) {
+    if (fields->empty() || gg.chance(1, 5)) {
+      bool nonDefault = gg.chance(1, 2);
+      vh::Rng peek = gg;
+      int effort = peek.range(1, 9);
+      *fields = paramFields(vc::genParams(gg, nonDefault), effort);
+    }
+    return std::string("obs ") + (gg.chance(2, 5) ? "legalize " : "placeDetailed ") + *fields;
+  };
+  int rounds = g.range(3, 6);
+  auto plan = std::make_shared<vhist::Plan>(g, prof, genObs, rounds);
+  src = [plan](const Circuit &c, vhist::Step &st) { return plan->next(c, st); };
+}
+
+static std::string runIsolatedHistory(const vhist::State &init, vhist::StepSource src) {
+  std::string output, diag;
+  std::string status = vh::isolated([&](std::ostream &os) { childHistory(init, src, os); }, output, 300, &diag);
+  std::string rec = "status " + status + "\n";
+  if (status == "ok") return rec + output;
+  for (auto &l : splitLines(diag))
+    if (l.rfind("C04|", 0) == 0) rec += l.substr(4) + "\n";
+  return rec;
+}
+
 // static description of the input (measured distribution)
 static std::vector<std::string> staticStats(const Case &cs) {
   std::vector<std::string> st;
@@ -542,6 +743,68 @@ struct Merger {
       out.sample(cs.input());
     }
   }
+  // record of one object history (childHistory)
+  void applyHistory(const std::string &id, const std::string &rec) {
+    std::string status = "ok";
+    std::vector<std::string> hist;
+    std::vector<std::pair<std::string, std::vector<std::string>>> corr;  // observation -> "ops|impl" lines
+    int twinDone = -1, objDone = -1, nObs = 0;
+    bool nontriv = false;
+    auto historySoFar = [&]() {
+      std::string t;
+      for (auto &h : hist) t += h + "\n";
+      return t + "endhistory\n";
+    };
+    for (auto &l : splitLines(rec)) {
+      if (l.rfind("status ", 0) == 0) status = l.substr(7);
+      else if (l.rfind("hist ", 0) == 0) hist.push_back(l.substr(5));
+      else if (l.rfind("stat ", 0) == 0) {
+        std::istringstream is(l.substr(5));
+        std::string key;
+        long long n = 1;
+        is >> key;
+        if (!(is >> n)) n = 1;
+        out.count(key, n);
+      } else if (l == "nontrivial") nontriv = true;
+      else if (l.rfind("obs_begin ", 0) == 0) ++nObs;
+      else if (l.rfind("twin_done ", 0) == 0) twinDone = atoi(l.c_str() + 10);
+      else if (l.rfind("obj_done ", 0) == 0) objDone = atoi(l.c_str() + 9);
+      else if (l.rfind("corrcase ", 0) == 0) corr.push_back({l.substr(9), {}});
+      else if (l.rfind("corr ", 0) == 0 && !corr.empty()) corr.back().second.push_back(l.substr(5));
+      else if (l.rfind("fail ", 0) == 0) {
+        out.fail(id + "_" + std::to_string(std::max(0, nObs - 1)), l.substr(5), historySoFar());
+        out.count("hist_failures_reported");
+      }
+    }
+    out.count("hist_histories");
+    out.evaluations += std::max(1, nObs);
+    if (status != "ok") {
+      out.count("hist_real_code_died_" + status + " (counted, not a C04 failure unless the fresh twin survived the same call)");
+      bool died = status == "abort" || status == "sanitizer" || status.rfind("signal:", 0) == 0;
+      if (died && twinDone > objDone) {
+        out.fail(id + "_" + std::to_string(twinDone),
+                 "object history: the call completed on a freshly constructed circuit with the same observable state, but the history object died in it (" + status + ")",
+                 historySoFar());
+        out.count("hist_failures_reported");
+      }
+    } else {
+      for (auto &cc : corr) {
+        out.ops << "case " << id << "_" << cc.first << "\n";
+        out.impl << "case " << id << "_" << cc.first << "\n";
+        for (auto &pr : cc.second) {
+          size_t bar = pr.find('|');
+          out.ops << pr.substr(0, bar) << "\n";
+          out.impl << pr.substr(bar + 1) << "\n";
+          out.count("hist_orientations_compared_with_model");
+        }
+      }
+    }
+    if (nontriv) {
+      out.nontrivial(vh::hashStr(historySoFar()));
+      out.count("hist_nontrivial_histories");
+      if (out.samples.size() < 6 && (hist.size() % 3 == 0)) out.sample(historySoFar());
+    }
+  }
 };
 
 int main(int argc, char **argv) {
@@ -552,7 +815,11 @@ int main(int argc, char **argv) {
              "(vc::genCircuit: 1-8 rows, alternating / uniform / irregular N,S,FN,FS row orientations, split rows, polarities "
              "ANY/SAME/OPPOSITE/NW/SE on cells of 1-4 rows, fixed cells, nets) with effort and non-default parameter streams; "
              "orientation oracle after legalize, at every Detailed callback and after placeDetailed; non-trivial = at least one "
-             "movable cell with a polarity and Circuit::legalize returned; distinct by canonical text of circuit + parameters";
+             "movable cell with a polarity and Circuit::legalize returned; distinct by canonical text of circuit + parameters. "
+             "part 3: object histories (public mutators and legalize / placeDetailed interleaved on one Circuit object, circuits kept in "
+             "the C01 domain): every observation is one evaluation (orientation oracle against the current rows, comparison with the "
+             "same call on a freshly rebuilt circuit, orientation of every placed movable cell compared with the model's "
+             "assignedOrientation); a history is non-trivial when an observed call returned with a polarised movable cell present";
   tableStream(out);
   out.ops.flush();
   out.impl.flush();
@@ -564,6 +831,20 @@ int main(int argc, char **argv) {
     std::stringstream ss;
     ss << f.rdbuf();
     std::string input = jsonStringField(ss.str(), "input");
+    if (vhist::isHistoryText(input)) {
+      vhist::History h;
+      if (!vhist::parseHistory(input, h)) {
+        out.notes.push_back("replay: the history in the input field of " + a.replay + " could not be parsed");
+        out.count("replay_unparsed");
+      } else {
+        std::string rec = runIsolatedHistory(h.init, vhist::recorded(h.steps));
+        if (getenv("C04_VERBOSE")) std::cerr << rec;
+        mg.applyHistory("replay", rec);
+        out.count("replayed_history");
+      }
+      out.finish();
+      return 0;
+    }
     std::vector<std::string> lines = splitLines(input);
     size_t pos = 0;
     Case cs;
@@ -598,6 +879,22 @@ int main(int argc, char **argv) {
   }
 
   long long n = a.thorough() ? 24000 : (a.search() ? 24000 : 2400);
+  // object histories follow the single-call cases in the same index space: k = n + history index
+  long long nh = a.thorough() ? 4000 : (a.search() ? 3000 : 1000);
+  if (getenv("C04_HISTORIES")) nh = atoll(getenv("C04_HISTORIES"));
+  auto historyRecord = [&](long long hk) {
+    vhist::State init;
+    vhist::StepSource src;
+    makeHistory(a.seed, hk, init, src);
+    return runIsolatedHistory(init, src);
+  };
+  if (a.only >= n) {
+    std::string rec = historyRecord(a.only - n);
+    mg.applyHistory("h" + std::to_string(a.only - n), rec);
+    std::cerr << rec;
+    out.finish();
+    return 0;
+  }
   if (a.only >= 0) {
     Case cs = makeCase(a.seed, a.only);
     std::string diag;
@@ -620,9 +917,10 @@ int main(int argc, char **argv) {
     if (pid < 0) { perror("fork"); return 3; }
     if (pid == 0) {
       std::ofstream wf(wfile(w));
-      for (long long k = w; k < n; k += W) {
-        Case cs = makeCase(a.seed, k);
-        std::string rec = runIsolated(cs);
+      for (long long k = w; k < n + nh; k += W) {
+        std::string rec;
+        if (k >= n) rec = historyRecord(k - n);
+        else rec = runIsolated(makeCase(a.seed, k));
         wf << "#case " << k << " " << rec.size() << "\n" << rec;
         wf.flush();
       }
@@ -637,8 +935,8 @@ int main(int argc, char **argv) {
     waitpid(p, &st, 0);
     if (!WIFEXITED(st) || WEXITSTATUS(st) != 0) workerDied = true;
   }
-  std::vector<std::string> recs(n);
-  std::vector<bool> have(n, false);
+  std::vector<std::string> recs(n + nh);
+  std::vector<bool> have(n + nh, false);
   for (int w = 0; w < W; ++w) {
     std::ifstream f(wfile(w));
     std::string hdr;
@@ -647,7 +945,7 @@ int main(int argc, char **argv) {
       std::string kw;
       long long k;
       size_t sz;
-      if (!(is >> kw >> k >> sz) || kw != "#case" || k < 0 || k >= n) break;
+      if (!(is >> kw >> k >> sz) || kw != "#case" || k < 0 || k >= n + nh) break;
       std::string rec(sz, '\0');
       f.read(&rec[0], sz);
       recs[k] = rec;
@@ -660,6 +958,10 @@ int main(int argc, char **argv) {
     Case cs = makeCase(a.seed, k);
     if (!have[k]) { out.count("harness_worker_lost_case"); continue; }
     mg.apply(cs, recs[k]);
+  }
+  for (long long k = n; k < n + nh; ++k) {
+    if (!have[k]) { out.count("harness_worker_lost_case"); continue; }
+    mg.applyHistory("h" + std::to_string(k - n), recs[k]);
   }
   if (workerDied) out.notes.push_back("a harness worker process died; some cases were not evaluated (see harness_worker_lost_case)");
   out.count("random_cases", n);
